@@ -3,7 +3,7 @@
    Model: coq/IoDefs.v (lbuf_save with its guards, lbuf_wr + write_fully under a fault schedule = one
    outcome per open/write/close call, ec_write, ec_quit for q/wq/x/xa with or without !). *)
 From Coq Require Import List NArith ZArith Bool.
-From NV Require Import Bytes GenConsts IoDefs IoProps IoFaultProps.
+From NV Require Import Bytes GenConsts IoDefs IoProps IoFaultProps IoLinkDefs IoLinkProps.
 Import ListNotations.
 
 (* without `!`: a target that exists (mtime >= 0: the code takes a negative time stamp for "absent") and
@@ -76,3 +76,95 @@ Proof.
   cbv zeta. split; [eexists; eexists; eexists; split; [vm_compute; reflexivity | split; reflexivity]|].
   split; [eexists; eexists; split; [vm_compute; reflexivity | reflexivity]|]. split; vm_compute; reflexivity.
 Qed.
+
+(* ------------------------------------------------------------------ names, symbolic links, foreign writers *)
+(* Model: coq/IoLinkDefs.v.  mtime() is stat(2): a name is resolved through symbolic links (at most
+   MAXSYMLINKS, a loop fails) before the time stamp is looked at, and open() follows the same links;
+   `target lk fs p` is the file the name p finally denotes.  The guard clause for every recorded time
+   stamp, the one of a name that denoted no file when the buffer was loaded (-1) included: without `!`
+   a target that exists (stamp >= 0) and is another name, or the own name with a newer stamp, or the own
+   name recorded as absent, is refused by :w / :x (first part), by :wq / :x / :xa (no quit; second part)
+   and by the save loop of :xa (third part); no system call is consumed, nothing changes. *)
+Theorem C03_guard_links :
+  (forall now isx rng lk path bf fs sch c m,
+     target lk fs path = Some (c, m) -> (0 <= m)%Z ->
+     (path <> b_path bf \/ (m > b_mtime bf)%Z \/ b_mtime bf = (-1)%Z) -> skips isx bf = false ->
+     ec_write_l now isx false rng lk path bf fs sch = (SRefused, bf, fs, sch)) /\
+  (forall now isx all lk b0 rest fs sch c m,
+     target lk fs (b_path b0) = Some (c, m) -> (0 <= m)%Z ->
+     ((m > b_mtime b0)%Z \/ b_mtime b0 = (-1)%Z) -> skips isx b0 = false ->
+     ec_quit_l now true isx all false lk (b0 :: rest) fs sch = (false, SRefused, b0 :: rest, fs, sch)) /\
+  (forall now lk bf rest fs sch c m,
+     target lk fs (b_path bf) = Some (c, m) -> (0 <= m)%Z -> ((m > b_mtime bf)%Z \/ b_mtime bf = (-1)%Z) ->
+     quit_loop_l now true false lk (bf :: rest) fs sch = (false, SRefused, fs, sch)).
+Proof. exact (conj guard_write_l (conj guard_quit_l guard_quit_loop_l)). Qed.
+Print Assumptions C03_guard_links.
+
+(* What the buffer remembers and what a foreign writer can do about it.
+   (1) ec_edit records mtime() of the name, -1 (and no lines) when the name denotes no file.
+   (2) a successful write reaches the file the name denotes (exactly the addressed lines) and, for the own
+       name, records that file's stamp again.
+   (3) the buffer being in step with (lk, fs), after ANY sequence of foreign operations (write through
+       links, rename over the name, touch, unlink) whose stamps lie in later seconds, a write of the own name
+       without `!` is refused with nothing consumed or changed -- unless the name denotes no file now, or
+       denotes the very file (same resolution, same content, same stamp) the editor read or wrote last.
+   (4) in particular for a name that denoted no file at load time: whatever exists there now is refused.
+   Granularity: st_mtime counts whole seconds, so `later` is a hypothesis (a foreign write within the
+   second of the editor's own read/write is invisible to the code). *)
+Theorem C03_guard_session :
+  (forall lk fs p,
+     b_mtime (ec_edit_l lk fs p) = mtime_of lk fs p /\ b_path (ec_edit_l lk fs p) = p /\
+     (target lk fs p = None -> b_mtime (ec_edit_l lk fs p) = (-1)%Z /\ b_lines (ec_edit_l lk fs p) = [])) /\
+  (forall now isx force rng lk path bf fs sch bf' fs' r,
+     ec_write_l now isx force rng lk path bf fs sch = (SOk, bf', fs', r) -> skips isx bf = false ->
+     (exists q, resolve lk path = Some q /\
+        fs_content fs' q = Some (want (b_lines bf) (fst (rng_of rng (length (b_lines bf)))) (snd (rng_of rng (length (b_lines bf)))))) /\
+     (b_path bf = path -> b_mtime bf' = mtime_of lk fs' path /\ b_path bf' = path) /\
+     (b_path bf <> path -> bf' = bf)) /\
+  (forall now isx rng lk fs bf ops lk' fs' sch,
+     b_mtime bf = mtime_of lk fs (b_path bf) ->
+     Forall (later_than (b_mtime bf)) ops ->
+     foreign_run (lk, fs) ops = (lk', fs') ->
+     skips isx bf = false ->
+     ec_write_l now isx false rng lk' (b_path bf) bf fs' sch = (SRefused, bf, fs', sch) \/
+     target lk' fs' (b_path bf) = None \/
+     (resolve lk' (b_path bf) = resolve lk (b_path bf) /\ target lk' fs' (b_path bf) = target lk fs (b_path bf))) /\
+  (forall now isx rng lk fs p ops lk' fs' sch text c m,
+     target lk fs p = None ->
+     Forall (later_than (-1)) ops ->
+     foreign_run (lk, fs) ops = (lk', fs') ->
+     target lk' fs' p = Some (c, m) ->
+     let bf := {| b_lines := text; b_path := p; b_mtime := b_mtime (ec_edit_l lk fs p); b_dirty := true |} in
+     ec_write_l now isx false rng lk' p bf fs' sch = (SRefused, bf, fs', sch)).
+Proof. exact (conj edit_records (conj success_exact_l (conj guard_session guard_session_absent))). Qed.
+Print Assumptions C03_guard_session.
+
+(* without links the model over names is the model of the theorems above, so they all carry over *)
+Theorem C03_links_conservative :
+  (forall now isx force rng path bf fs sch,
+     ec_write_l now isx force rng [] path bf fs sch = ec_write now isx force rng path bf fs sch) /\
+  (forall now wr isx all bang bufs fs sch,
+     ec_quit_l now wr isx all bang [] bufs fs sch = ec_quit now wr isx all bang bufs fs sch).
+Proof. exact (conj ec_write_l_nil ec_quit_l_nil). Qed.
+Print Assumptions C03_links_conservative.
+
+(* non-vacuity: name 2 is a link to name 0 (file stamped 5, recorded 5), name 3 denotes nothing.
+   A foreign write THROUGH the link stamped 7 makes :w of name 2 refuse; untouched it succeeds and the data
+   lands in file 0; name 3 loaded as absent (-1), then created by someone else with stamp 0: :w and :xa refuse;
+   a rename over the link (the link becomes a regular file) refuses as well. *)
+Example C03_links_nonvacuous :
+  let lk := [(2, 0)] in
+  let fs := [(0, ([120; 10]%N, 5%Z))] in
+  let bf := {| b_lines := [[97; 10]]%N; b_path := 2; b_mtime := b_mtime (ec_edit_l lk fs 2); b_dirty := true |} in
+  let b3 := {| b_lines := [[97; 10]]%N; b_path := 3; b_mtime := b_mtime (ec_edit_l lk fs 3); b_dirty := true |} in
+  b_mtime bf = 5%Z /\ b_mtime b3 = (-1)%Z /\
+  (let '(lk', fs') := foreign_run (lk, fs) [FWrite 2 [121]%N 7%Z] in
+   ec_write_l 9%Z false false None lk' 2 bf fs' [] = (SRefused, bf, fs', []) /\ fs_content fs' 0 = Some [121]%N) /\
+  (exists bf' fs' r, ec_write_l 9%Z false false None lk 2 bf fs [] = (SOk, bf', fs', r) /\
+     fs_content fs' 0 = Some [97; 10]%N /\ fs_content fs' 2 = None /\ b_mtime bf' = 9%Z) /\
+  (let '(lk', fs') := foreign_run (lk, fs) [FWrite 3 [121]%N 0%Z] in
+   ec_write_l 9%Z false false None lk' 3 b3 fs' [] = (SRefused, b3, fs', []) /\
+   ec_quit_l 9%Z true true true false lk' [b3] fs' [] = (false, SRefused, [b3], fs', [])) /\
+  (let '(lk', fs') := foreign_run (lk, fs) [FReplace 2 [121]%N 7%Z] in
+   ec_write_l 9%Z false false None lk' 2 bf fs' [] = (SRefused, bf, fs', []) /\ resolve lk' 2 = Some 2).
+Proof. cbv zeta. vm_compute. repeat split; try reflexivity. eexists; eexists; eexists. repeat split; reflexivity. Qed.
